@@ -112,3 +112,37 @@ Definition c08_smith3 (a00 a01 a02 a11 a12 a22 : R) : R * R * R :=
 (* characteristic polynomial of the symmetric 3x3 matrix: det(l I - A) *)
 Definition c08_charpoly3 (a00 a01 a02 a11 a12 a22 l : R) : R :=
   c08_det3 (l - a00) (- a01) (- a02) (- a01) (l - a11) (- a12) (- a02) (- a12) (l - a22).
+
+(* ------------------------------------------------------------------------------------------- (4) 3x3 eigenvector, eig0
+   Impl::eig0 over R: rows of A - l I, the three row cross products, the pair with the LARGEST cross product
+   (running maximum dmax/imax exactly as in the code), normalised.  Result: (imax, evec0). *)
+Definition c08_vec3 := (R * R * R)%type.
+Definition c08_cross (u v : c08_vec3) : c08_vec3 :=
+  let '(u0, u1, u2) := u in let '(v0, v1, v2) := v in (u1 * v2 - u2 * v1, u2 * v0 - u0 * v2, u0 * v1 - u1 * v0).
+Definition c08_dot3 (u v : c08_vec3) : R :=
+  let '(u0, u1, u2) := u in let '(v0, v1, v2) := v in u0 * v0 + u1 * v1 + u2 * v2.
+Definition c08_norm3 (v : c08_vec3) : R := let '(v0, v1, v2) := v in sqrt (0 + v0 * v0 + v1 * v1 + v2 * v2).
+Definition c08_div3 (v : c08_vec3) (d : R) : c08_vec3 := let '(v0, v1, v2) := v in (v0 / d, v1 / d, v2 / d).
+Definition c08_mat3 := (c08_vec3 * c08_vec3 * c08_vec3)%type.          (* rows *)
+Definition c08_shift3 (A : c08_mat3) (l : R) : c08_mat3 :=
+  let '((a00, a01, a02), (a10, a11, a12), (a20, a21, a22)) := A in
+  ((a00 - l, a01, a02), (a10, a11 - l, a12), (a20, a21, a22 - l)).
+Definition c08_mv3 (A : c08_mat3) (v : c08_vec3) : c08_vec3 :=
+  let '(r0, r1, r2) := A in (c08_dot3 r0 v, c08_dot3 r1 v, c08_dot3 r2 v).
+Definition c08_det3m (A : c08_mat3) : R :=
+  let '((a00, a01, a02), (a10, a11, a12), (a20, a21, a22)) := A in c08_det3 a00 a01 a02 a10 a11 a12 a20 a21 a22.
+Definition c08_eig0 (A : c08_mat3) (l : R) : nat * c08_vec3 :=
+  let '(row0, row1, row2) := c08_shift3 A l in
+  let r0xr1 := c08_cross row0 row1 in let r0xr2 := c08_cross row0 row2 in let r1xr2 := c08_cross row1 row2 in
+  let d0 := c08_norm3 r0xr1 in let d1 := c08_norm3 r0xr2 in let d2 := c08_norm3 r1xr2 in
+  let '(dmax, imax) := if Rlt_dec d0 d1 then (d1, 1%nat) else (d0, 0%nat) in       (* if (d1 > dmax) { dmax = d1; imax = 1; } *)
+  let imax := if Rlt_dec dmax d2 then 2%nat else imax in                            (* if (d2 > dmax) imax = 2; *)
+  match imax with
+  | 0%nat => (0%nat, c08_div3 r0xr1 d0)
+  | 1%nat => (1%nat, c08_div3 r0xr2 d1)
+  | _ => (2%nat, c08_div3 r1xr2 d2)
+  end.
+(* the three cross-product lengths eig0 compares *)
+Definition c08_eig0_d (A : c08_mat3) (l : R) : R * R * R :=
+  let '(row0, row1, row2) := c08_shift3 A l in
+  (c08_norm3 (c08_cross row0 row1), c08_norm3 (c08_cross row0 row2), c08_norm3 (c08_cross row1 row2)).
